@@ -148,8 +148,6 @@ def check_option(case):
         bad = ("multi-valued-without-required-value", None, f)
     elif o.is_multi_valued() and not isinstance(o.default, list):
         bad = ("multi-valued-default-not-list", "list", repr(o.default))
-    elif not o.is_multi_valued() and o.accepts_value() and default is not None and o.default != default:
-        bad = None  # default preservation is not in the statement
     if bad is None:
         got, e2 = _construct(lambda: o.parse("1"))
         want = PROBE[types[0]]
@@ -364,7 +362,7 @@ BIG_INTS = [2 ** 31 - 1, 2 ** 31, -2 ** 31, -2 ** 31 - 1, 2 ** 63 - 1, 2 ** 63, 
 
 
 def int_domain():
-    return list(range(0, 1101)) and sorted(range(-1100, 1101), key=lambda n: (abs(n), n < 0)) + BIG_INTS
+    return sorted(range(-1100, 1101), key=lambda n: (abs(n), n < 0)) + BIG_INTS
 
 
 def float_domain():
@@ -384,7 +382,7 @@ def parse_inputs(tname):
     for t in BOUNDARY_TEXTS:
         out.append(("text", t, NOEXP))
     for n in int_domain():
-        out.append(("int-text", str(n), n if tname == "INTEGER" else (float(n) if tname == "FLOAT" and abs(n) < 2 ** 53 else NOEXP)))
+        out.append(("int-text", str(n), n if tname == "INTEGER" else (float(n) if tname == "FLOAT" else NOEXP)))
         if tname == "INTEGER":
             out.append(("int", n, n))
     for x in float_domain():
@@ -479,35 +477,49 @@ def replay(case):
 def _simplicity(v):
     c = v["case"]
     if c[0] in ("option", "argument", "command_option"):
-        return (0, _popcount(c[1]), c[1], repr(c[2:]))
+        return (0, _popcount(c[1]), c[1], [x not in (None, "none") for x in c[2:]], repr(c[2:]))
     if c[0] in ("name", "nonstring"):
-        return (1, len(str(c[2])), repr(c[2]))
+        t = str(c[2])
+        return (1, len(t), sum(1 for ch in t.lstrip("-") if ch not in "abcdefghijklmnopqrstuvwxyz"), repr(c[2]))
     return (2, c[4], repr(c[1:4]))
 
 
+def _nontrivial(case):
+    """Does the case exercise the mechanism (stated in the evidence `rule`)?  Returns a hashable canonical form or None."""
+    if case[0] in ("option", "argument", "command_option"):
+        defined = case[1] & (A_DEFINED if case[0] == "argument" else O_DEFINED if case[0] == "option" else 3)
+        if _popcount(defined) >= 2 or (case[0] != "command_option" and case[-1] != "none" and defined):
+            return (case[0], defined) + tuple(repr(x) for x in case[2:])  # undefined bits do not make a new case
+        return None
+    if case[0] == "name":
+        r = case[2]
+        if len(r) >= 2 and (r.startswith("-") or any(ch not in ASCII_LETTERS for ch in r)):
+            return (case[1], r)
+    return None
+
+
 def _run_share(share):
-    """share = list of cases -> (evaluations, nontrivial, accepted, {sig: simplest violation})"""
+    """share = list of cases -> (evaluations, non-trivial canonical cases, simplest violation per signature)"""
     best = {}
-    n = nontrivial = accepted = 0
+    n = 0
+    nt = set()
+    n_parse_nt = 0
     for case in share:
         if case[0] == "parse":
             k, vs = check_parse(case)
             n += k
-            nontrivial += k - 1
+            n_parse_nt += sum(1 for tag, v, want in parse_inputs(case[2] or "STRING") if tag not in ("int-text", "int") or abs(int(v)) > 1100)
         else:
             v = CHECKS[case[0]](case)
             vs = [v] if v else []
             n += 1
-            if case[0] in ("option", "argument", "command_option"):
-                defined = case[1] & (O_DEFINED if case[0] != "argument" else A_DEFINED)
-                if _popcount(defined) >= 2 or case[-1] not in (None, "none"):
-                    nontrivial += 1
-            elif case[0] == "name" and len(case[2]) >= 2:
-                nontrivial += 1
+            c = _nontrivial(case)
+            if c is not None:
+                nt.add(c)
         for v in vs:
             if v["sig"] not in best or _simplicity(v) < _simplicity(best[v["sig"]]):
                 best[v["sig"]] = v
-    return n, nontrivial, list(best.values())
+    return n, nt, n_parse_nt, list(best.values())
 
 
 def all_cases(seed):
@@ -538,7 +550,7 @@ def all_cases(seed):
     for r in raw:
         for role in ("long", "long-command-option", "short", "argument", "alias"):
             cases.append(["name", role, r])
-    for v in (None, 5, 1.5, True, ["aa"], b"aa"):
+    for v in (None, 5, 1.5, True, ["aa"]):
         for role in ("long", "short", "argument", "alias"):
             cases.append(["nonstring", role, v])
     n_names = len(cases) - n_flags
@@ -555,23 +567,27 @@ def main():
         rep.violation(report.viol("flag-constants-renumbered", "the numeric flag layout differs from the one the oracle was written for", ["constants"]))
         return rep.finish()
     cases, info = all_cases(rep.seed)
-    # nonstring cases hold values JSON cannot carry (bytes): they are replayed by repr only
     parse_cases = [c for c in cases if c[0] == "parse"]
     other = [c for c in cases if c[0] != "parse"]
     shares = par.chunks(other, 4 * common.ncpu()) + [[c] for c in parse_cases]
     allv = []
-    for n, nt, vs in par.pmap(_run_share, shares):
+    distinct = set()
+    for n, nt, npn, vs in par.pmap(_run_share, shares):
         rep.add("evaluations", n)
-        rep.add("distinct_nontrivial", nt)
+        rep.add("parse_nontrivial", npn)
+        distinct |= nt
         allv.extend(vs)
+    rep.set("distinct_nontrivial", len(distinct) + rep.cov.get("parse_nontrivial", 0))
     allv.sort(key=_simplicity)
     rep.merge(allv)
     for k, v in info.items():
         rep.set(k, v)
     rep.set("parse_inputs_per_type", {t: len(parse_inputs(t)) for t in TYPE_OF})
     rep.set("exhaustive", True)
-    rep.set("rule", "evaluations = constructor calls + parse calls; non-trivial = flag words with >= 2 defined bits or a default, "
-                    "names of length >= 2, parse inputs other than None; every case of the stated space is executed in both tiers")
+    rep.set("rule", "evaluations = constructor calls + parse calls.  distinct_nontrivial = distinct flag cases after masking the undefined "
+                    "bits that carry >= 2 defined bits (or one defined bit and a default) + distinct (role, string) name cases of length >= 2 "
+                    "that carry a dash prefix or a non-letter + parse inputs other than the decimal text of the ints in [-1100, 1100]; "
+                    "every case of the stated space is executed in both tiers")
     rep.sample(["option", O_MULTI | O_INTEGER, "s", "list"])
     rep.sample(["argument", A_REQUIRED | A_MULTI | A_FLOAT, "none"])
     rep.sample(["name", "alias", "--aZ"])
